@@ -167,7 +167,7 @@ def install_collections(eng, rec=None):
         return one(st, IterV(out, 'val'))
     M(r'as rayon::iter::ParallelIterator>::filter_map$', par_filter_map)
     M(r'as rayon::iter::ParallelIterator>::collect$', lambda e, st, fr, f, a, m: one(st, VecV(a[0].ents)))
-    M(r'^<std::option::Option<.*> as std::iter::IntoIterator>::into_iter$', lambda e, st, fr, f, a, m: one(st, IterV([(_deq(a[0].disc, 1), a[0].items[0] if a[0].items else None)], 'val')))
+    M(r'^<std::option::Option<.*> as std::iter::IntoIterator>::into_iter$', lambda e, st, fr, f, a, m: one(st, IterV(([(True, a[0].items[0])] if a[0].disc == 1 else []) if not isz(a[0].disc) else [(_deq(a[0].disc, 1), a[0].items[0] if a[0].items else None)], 'val')))
     M(r'^<std::option::IntoIter<.*> as std::iter::Iterator>::collect$', lambda e, st, fr, f, a, m: one(st, VecV(a[0].ents)))
     M(r'^<std::ops::Range<usize> as std::iter::Iterator>::rev$', lambda e, st, fr, f, a, m: one(st, IterV([(True, i) for i in reversed(range(conc(a[0].items[0]), conc(a[0].items[1])))], 'val')))
     def array_map(e, st, fr, f, a, m):
